@@ -17,7 +17,10 @@ typedef unsigned __CPROVER_bitvector[56] bv56;
 #endif
 void zuc_encrypt(ZUC_STATE *state, const uint8_t *in, size_t inlen, uint8_t *out)
 REQUIRES(RW_OK(state, sizeof(ZUC_STATE)) && inlen <= 8 && verif_gk < 16)
-REQUIRES(inlen == 0 || (RD_OK(in, inlen) && WR_OK(out, inlen) && SEPARATE(state, in) && SEPARATE(state, out)))
+/* the input may live next to the state in one object (zuc_modes.c passes ctx->block with &ctx->zuc_state): ranges disjoint */
+REQUIRES(inlen == 0 || (RD_OK(in, inlen) && WR_OK(out, inlen) && SEPARATE(state, out)
+	&& (SEPARATE(state, in) || __CPROVER_POINTER_OFFSET(in) >= __CPROVER_POINTER_OFFSET(state) + sizeof(ZUC_STATE)
+		|| __CPROVER_POINTER_OFFSET(in) + inlen <= __CPROVER_POINTER_OFFSET(state))))
 REQUIRES(state->LFSR[0] <= 0x7fffffffu && state->LFSR[1] <= 0x7fffffffu && state->LFSR[4] <= 0x7fffffffu && state->LFSR[5] <= 0x7fffffffu
 	&& state->LFSR[10] <= 0x7fffffffu && state->LFSR[11] <= 0x7fffffffu && state->LFSR[13] <= 0x7fffffffu && state->LFSR[14] <= 0x7fffffffu && state->LFSR[15] <= 0x7fffffffu)
 ASSIGNS(OBJ_UPTO((uint8_t *)state, sizeof(ZUC_STATE)); inlen != 0: OBJ_UPTO(out, inlen))
